@@ -115,6 +115,14 @@ func exprKinds() []kindT {
 		{name: "string-limit", expr: `format("%s%s%s", vL, vL, vL)`, expect: "exceeding string size limit", sentinel: "stringlimit", strLimit: 64},
 		{name: "string-limit", expr: `vL + 1234567890123 + 1234567890123 + 1234567890123`, expect: "exceeding string size limit", sentinel: "stringlimit", strLimit: 64},
 		{name: "bytes-limit", expr: `vLB + vLB + vLB`, expect: "exceeding bytes size limit", sentinel: "byteslimit", bytLimit: 64},
+		// the operand is a function literal WITHOUT a trailing return (the optimizer appends the implicit return at
+		// the literal's own position): the failing instruction directly follows the one that materialises the
+		// function (C14-m8: no source-map entry when the same AST node emits twice in a row, across the scope switch)
+		{name: "unary-on-funclit", expr: `-func() { a = 1 }`, expect: "invalid operation: -compiled-function"},
+		{name: "unary-on-funclit", expr: `^func(p) { a = p }`, expect: "invalid operation: ^compiled-function"},
+		{name: "unary-on-funclit", expr: "-func() {\n%Ja = vI\n%I}", expect: "invalid operation: -compiled-function"},
+		{name: "binop-on-funclit", expr: `func() { a = vI } + 1`, expect: "invalid operation: compiled-function + int"},
+		{name: "index-on-funclit", expr: `func() { a = vI }.k`, expect: "not indexable"},
 		{name: "go-panic", expr: `vI / 0`, expect: "\x00never"},
 		{name: "go-panic", expr: `vI % 0`, expect: "\x00never"},
 	}
@@ -142,6 +150,8 @@ func stmtKinds() []kindT {
 		{name: "not-iterable", stmt: "for k, v in vB {\n%Ja = 0\n%I}", expect: "not iterable: bool"},
 		{name: "not-iterable", stmt: "for x in\n%JvF {\n%Ja = 0\n%I}", expect: "not iterable: float"},
 		{name: "not-iterable", stmt: "for x in g2 {\n%I}", expect: "not iterable: compiled-function"},
+		{name: "not-iterable-funclit", stmt: "for x in func() { a = vI } {\n%Ja = 0\n%I}", expect: "not iterable: compiled-function"},
+		{name: "not-iterable-funclit", stmt: "for k, v in func(p) {\n%Ja = p\n%I} {\n%I}", expect: "not iterable: compiled-function"},
 	}
 }
 
@@ -152,7 +162,7 @@ func allocKinds() []kindT {
 	return []kindT{
 		mk(`t := [1, 2]`), mk(`t := {k: 1}`), mk(`t := vI + 1`), mk(`t := vS + "x"`), mk(`t := -vI`), mk(`t := ^vI`), mk(`t := -vF`),
 		mk(`t := error(1)`), mk(`t := immutable(vA)`), mk(`t := immutable(vM)`), mk(`t := vA[0:1]`), mk(`t := vS[0:1]`), mk(`t := vIA[0:1]`), mk(`t := vBy[0:1]`),
-		mk(`t := len(vA)`), mk(`t := func() { return vI }`), mk("for x in vA {\n%Ja = x\n%I}"), mk(`t := g2(vI + 1, vI + 2)`),
+		mk(`t := len(vA)`), mk(`t := func() { return vI }`), mk(`t := func() { a = vI }`), mk("t := func(p) {\n%Ja = vI + p\n%I}"), mk(`vM.f = func() { vM.n = vI }`), mk("for x in vA {\n%Ja = x\n%I}"), mk(`t := g2(vI + 1, vI + 2)`),
 		mk(`vM.n = vI * 2`), mk(`a = [vI + 1][0]`),
 		mk("t := [\n%J[1, 2],\n%J{k: [3]},\n%JvI + 2,\n%JvS + \"b\",\n%J-vI,\n%Jerror(1),\n%Jimmutable([1]),\n%JvA[0:1],\n%Jlen(\"a\")\n%I]"),
 		mk("t := {\n%Jk1: vI + 1,\n%Jk2: [vI - 1, -vF],\n%Jk3: string(vI)\n%I}"),
